@@ -583,6 +583,12 @@ func (e *Enc) execInstr(ins ssa.Instruction, st *State) {
 	case *ssa.MakeChan:
 		ref := e.allocRef(st, "chan")
 		e.vals[ins] = &Val{T: ins.Type(), L: []string{ref}}
+		if c, ok := constOf(e.val(ins.Size)); ok && c.IsInt64() {
+			if e.chanRoom == nil {
+				e.chanRoom = map[string]int{}
+			}
+			e.chanRoom[ref] = int(c.Int64())
+		}
 	case *ssa.MakeSlice:
 		e.execMakeSlice(ins, st)
 	case *ssa.Slice:
@@ -647,9 +653,22 @@ func (e *Enc) execInstr(ins ssa.Instruction, st *State) {
 		addr := e.val(ins.Addr)
 		v := e.val(ins.Val)
 		e.nilCheck(addr, ins.Pos(), "store through nil pointer")
+		if fa, ok := ins.Addr.(*ssa.FieldAddr); ok {
+			e.guardCheck(fa, e.val(fa.X), st, ins.Pos(), "write")
+		}
 		e.frameCheckStore(addr, ins, st)
 		e.escapeCheck(ins.Val, v, "stored to memory")
 		e.store(st, addr, ins.Val.Type(), v)
+		if al, ok := ins.Addr.(*ssa.Alloc); ok {
+			if e.allocVal == nil {
+				e.allocVal = map[*ssa.Alloc]*Val{}
+			}
+			e.allocVal[al] = v
+		} else if _, isLocal := addrBase(ins.Addr).(*ssa.Alloc); !isLocal || e.published[addr.L[0]] {
+			e.markPublished(v)
+		} else if !e.nonEsc[addrBase(ins.Addr)] && e.published[addr.L[0]] {
+			e.markPublished(v)
+		}
 	case *ssa.MapUpdate:
 		e.execMapUpdate(ins, st)
 	default:
@@ -659,6 +678,223 @@ func (e *Enc) execInstr(ins ssa.Instruction, st *State) {
 		}
 		e.havocAll(st, "unsupported instruction")
 	}
+}
+
+// capturedClosure: the free variable refers to a parent's variable whose single
+// assignment is a closure literal.
+func (e *Enc) capturedClosure(fv *ssa.FreeVar) *ssa.Function {
+	f := e.fn
+	cur := fv
+	for depth := 0; depth < 4 && f.Parent() != nil; depth++ {
+		parent := f.Parent()
+		idx := -1
+		for i, x := range f.FreeVars {
+			if x == cur {
+				idx = i
+			}
+		}
+		var bound ssa.Value
+		for _, b := range parent.Blocks {
+			for _, ins := range b.Instrs {
+				if mc, ok := ins.(*ssa.MakeClosure); ok && mc.Fn == ssa.Value(f) && idx >= 0 && idx < len(mc.Bindings) {
+					bound = mc.Bindings[idx]
+				}
+			}
+		}
+		switch bv := bound.(type) {
+		case *ssa.Alloc:
+			var stored ssa.Value
+			n := 0
+			if refs := bv.Referrers(); refs != nil {
+				for _, r := range *refs {
+					if st, ok := r.(*ssa.Store); ok && st.Addr == ssa.Value(bv) {
+						stored = st.Val
+						n++
+					}
+				}
+			}
+			if n == 1 {
+				if mc, ok := stored.(*ssa.MakeClosure); ok {
+					if cf, ok := mc.Fn.(*ssa.Function); ok {
+						return cf
+					}
+				}
+			}
+			return nil
+		case *ssa.FreeVar:
+			f, cur = parent, bv
+			continue
+		}
+		return nil
+	}
+	return nil
+}
+
+// stableLocalAlloc: a local variable cell (captured by closures) that is assigned exactly
+// once in this function and never by a closure: its value is that assignment's value,
+// whatever unknown code runs in between.
+func (e *Enc) stableLocalAlloc(al *ssa.Alloc) bool {
+	if r, ok := e.stableAlloc[al]; ok {
+		return r
+	}
+	if e.stableAlloc == nil {
+		e.stableAlloc = map[*ssa.Alloc]bool{}
+	}
+	res := func() bool {
+		refs := al.Referrers()
+		if refs == nil {
+			return false
+		}
+		stores := 0
+		var closures []*ssa.MakeClosure
+		for _, r := range *refs {
+			switch x := r.(type) {
+			case *ssa.Store:
+				if x.Addr != ssa.Value(al) {
+					return false // the address itself is stored somewhere
+				}
+				stores++
+			case *ssa.UnOp, *ssa.DebugRef:
+			case *ssa.MakeClosure:
+				closures = append(closures, x)
+			default:
+				return false
+			}
+		}
+		if stores != 1 {
+			return false
+		}
+		var storesTo func(f *ssa.Function, fv *ssa.FreeVar) bool
+		storesTo = func(f *ssa.Function, fv *ssa.FreeVar) bool {
+			for _, b := range f.Blocks {
+				for _, ins := range b.Instrs {
+					switch x := ins.(type) {
+					case *ssa.Store:
+						if x.Addr == ssa.Value(fv) {
+							return true
+						}
+					case *ssa.MakeClosure:
+						for k, bd := range x.Bindings {
+							if bd == ssa.Value(fv) {
+								if inner, ok := x.Fn.(*ssa.Function); ok && k < len(inner.FreeVars) && storesTo(inner, inner.FreeVars[k]) {
+									return true
+								}
+							}
+						}
+					}
+				}
+			}
+			// any other use of the address than load/store/closure capture
+			if refs := fv.Referrers(); refs != nil {
+				for _, r := range *refs {
+					switch r.(type) {
+					case *ssa.Store, *ssa.UnOp, *ssa.DebugRef, *ssa.MakeClosure:
+					default:
+						return true
+					}
+				}
+			}
+			return false
+		}
+		for _, mc := range closures {
+			f, ok := mc.Fn.(*ssa.Function)
+			if !ok {
+				return false
+			}
+			for k, bd := range mc.Bindings {
+				if bd == ssa.Value(al) && k < len(f.FreeVars) && storesTo(f, f.FreeVars[k]) {
+					return false
+				}
+			}
+		}
+		return true
+	}()
+	e.stableAlloc[al] = res
+	return res
+}
+
+// stableFreeVar: the captured variable is assigned only before the closure is created
+// (in the parent) and never inside this closure.
+func (e *Enc) stableFreeVar(fv *ssa.FreeVar) bool {
+	if _, ok := fv.Type().Underlying().(*types.Pointer); !ok {
+		return false
+	}
+	// no store to it inside this closure (or closures nested in it)
+	var storesIn func(f *ssa.Function, target func(ssa.Value) bool) bool
+	storesIn = func(f *ssa.Function, target func(ssa.Value) bool) bool {
+		for _, b := range f.Blocks {
+			for _, ins := range b.Instrs {
+				if st, ok := ins.(*ssa.Store); ok && target(st.Addr) {
+					return true
+				}
+			}
+		}
+		return false
+	}
+	if storesIn(e.fn, func(a ssa.Value) bool { return a == ssa.Value(fv) }) {
+		return false
+	}
+	parent := e.fn.Parent()
+	if parent == nil {
+		return false
+	}
+	// which value of the parent is bound to this free variable?
+	idx := -1
+	for i, f := range e.fn.FreeVars {
+		if f == fv {
+			idx = i
+		}
+	}
+	var bound ssa.Value
+	var mcBlock *ssa.BasicBlock
+	mcIdx := -1
+	for _, b := range parent.Blocks {
+		for i, ins := range b.Instrs {
+			if mc, ok := ins.(*ssa.MakeClosure); ok && mc.Fn == ssa.Value(e.fn) && idx >= 0 && idx < len(mc.Bindings) {
+				bound = mc.Bindings[idx]
+				mcBlock, mcIdx = b, i
+			}
+		}
+	}
+	al, ok := bound.(*ssa.Alloc)
+	if !ok {
+		return false
+	}
+	// stores in the parent must precede the closure creation (dominate it); other
+	// closures of the parent must not store to it either
+	for _, b := range parent.Blocks {
+		for i, ins := range b.Instrs {
+			if st, ok := ins.(*ssa.Store); ok && st.Addr == ssa.Value(al) {
+				if b == mcBlock && i < mcIdx {
+					continue
+				}
+				if b != mcBlock && b.Dominates(mcBlock) {
+					continue
+				}
+				return false
+			}
+		}
+	}
+	for _, sib := range parent.AnonFuncs {
+		for j, f := range sib.FreeVars {
+			_ = j
+			// find sibling's binding of the same alloc
+			for _, b := range parent.Blocks {
+				for _, ins := range b.Instrs {
+					if mc, ok := ins.(*ssa.MakeClosure); ok && mc.Fn == ssa.Value(sib) {
+						for k, bd := range mc.Bindings {
+							if bd == ssa.Value(al) && k < len(sib.FreeVars) && sib.FreeVars[k] == f {
+								if storesIn(sib, func(a ssa.Value) bool { return a == ssa.Value(f) }) {
+									return false
+								}
+							}
+						}
+					}
+				}
+			}
+		}
+	}
+	return true
 }
 
 func (e *Enc) nilCheck(p *Val, pos token.Pos, what string) {
@@ -707,8 +943,34 @@ func (e *Enc) tupleElem(t *Val, idx int) *Val {
 	return e.annotate(out)
 }
 
+// markPublished: a reference to an object allocated by this call leaves the function's
+// private state (stored into shared memory, passed to unknown code, sent, captured by
+// a spawned goroutine). Until then nobody else can touch the object.
+func (e *Enc) markPublished(v *Val) {
+	if v == nil {
+		return
+	}
+	for _, l := range v.L {
+		if e.allocRefs[l] {
+			if e.published == nil {
+				e.published = map[string]bool{}
+			}
+			e.published[l] = true
+		}
+	}
+	if v.Closure != nil {
+		for _, b := range v.Closure.Bindings {
+			e.markPublished(b)
+		}
+	}
+}
+
 func (e *Enc) allocRef(st *State, prefix string) string {
 	ref := e.declare(e.freshName(prefix), "Int")
+	if e.allocRefs == nil {
+		e.allocRefs = map[string]bool{}
+	}
+	e.allocRefs[ref] = true
 	e.assume("(= " + ref + " (+ " + st.alloc + " 1))")
 	st.alloc = ref
 	return ref
@@ -723,7 +985,7 @@ func (e *Enc) execAlloc(ins *ssa.Alloc, st *State) {
 	e.zeroInit(st, p.Root, ref)
 	// ghost fields of a new object start at 0
 	for g := range e.DB.GhostFields {
-		hk := e.hkeyNamed(types.Typ[types.UnsafePointer], "/"+g+":"+ghostOwnerKey(ins.Type()), "Int")
+		hk := e.hkeyNamed(types.Typ[types.UnsafePointer], "/"+g, "Int")
 		e.heapSet(st, hk, sStore(e.heapGet(st, hk), []string{ref, "0"}, "0"))
 	}
 }
@@ -761,6 +1023,41 @@ func (e *Enc) execUnOp(ins *ssa.UnOp, st *State) {
 			e.vals[ins] = e.freshVal("shared", ins.Type(), true)
 			return
 		}
+		if fa, ok := ins.X.(*ssa.FieldAddr); ok {
+			// map-typed guarded fields are checked at the map operation
+			if _, isMap := ins.Type().Underlying().(*types.Map); !isMap {
+				e.guardCheck(fa, e.val(fa.X), st, ins.Pos(), "read")
+			}
+		}
+		if al, ok := ins.X.(*ssa.Alloc); ok {
+			if v, ok := e.allocVal[al]; ok && e.stableLocalAlloc(al) {
+				e.vals[ins] = v
+				return
+			}
+		}
+		if fv, ok := ins.X.(*ssa.FreeVar); ok && e.stableFreeVar(fv) {
+			// a captured variable that nobody assigns after the capture: one value
+			if v, ok := e.stableFV[fv]; ok {
+				e.vals[ins] = v
+				return
+			}
+			v := e.load(st, x, ins.Type())
+			nv := &Val{T: v.T, Root: v.Root, Path: v.Path}
+			for i, lf := range typeLeaves(v.T) {
+				nv.L = append(nv.L, e.define("fv_"+sanitize(fv.Name()), arraySort(lf.Sort, lf.Dims), v.L[i]))
+			}
+			// a captured function variable assigned once to a closure literal keeps
+			// its static identity (the closure's own bindings are not known here)
+			if cf := e.capturedClosure(fv); cf != nil {
+				nv.Closure = &closureInfo{Fn: cf}
+			}
+			if e.stableFV == nil {
+				e.stableFV = map[*ssa.FreeVar]*Val{}
+			}
+			e.stableFV[fv] = e.annotate(nv)
+			e.vals[ins] = nv
+			return
+		}
 		e.vals[ins] = e.load(st, x, ins.Type())
 	case token.NOT:
 		e.vals[ins] = &Val{T: ins.Type(), L: []string{sNot(x.term())}}
@@ -787,6 +1084,9 @@ func (e *Enc) execUnOp(ins *ssa.UnOp, st *State) {
 			e.vals[ins] = &Val{T: ins.Type(), L: append(append([]string{}, v.L...), ok)}
 		} else {
 			e.vals[ins] = e.freshVal("recv", ins.Type(), true)
+		}
+		if e.ctr != nil && e.ctr.Opts["nonblocking"] == "on" {
+			e.oblige("nonblock", "", "false", ins.Pos(), "channel receive can block")
 		}
 		e.afterBlockingOp(st, "channel receive")
 	default:
@@ -1247,6 +1547,9 @@ func (e *Enc) makeInterface(x *Val, T types.Type) *Val {
 	for i := range x.L {
 		e.assume("(= (" + e.unboxName(T, i) + " " + r + ") " + x.L[i] + ")")
 	}
+	if _, isPtr := T.Underlying().(*types.Pointer); isPtr && len(x.L) == 2 {
+		e.assume("(= (ifaceobj " + r + ") " + x.L[0] + ")")
+	}
 	return &Val{T: types.NewInterfaceType(nil, nil), L: []string{r}, Closure: x.Closure, Box: x}
 }
 
@@ -1468,10 +1771,22 @@ func (e *Enc) strIndex(s, i string, T types.Type, pos token.Pos) *Val {
 }
 
 func (e *Enc) execReturn(ins *ssa.Return, st *State) {
-	e.fireAssertAt("return", "return", ins.Pos(), st, map[string]*Val{}, "true")
 	var vs []*Val
 	for _, r := range ins.Results {
 		vs = append(vs, e.val(r))
+	}
+	{
+		extra := map[string]*Val{}
+		if len(vs) == 1 {
+			extra["result"] = vs[0]
+		} else if len(vs) > 1 {
+			rv := &Val{T: e.fn.Signature.Results()}
+			for _, v := range vs {
+				rv.L = append(rv.L, v.L...)
+			}
+			extra["result"] = rv
+		}
+		e.fireAssertAt("return", "return", ins.Pos(), st, extra, "true")
 	}
 	e.retVals = append(e.retVals, retPoint{block: ins.Block(), pc: e.pc[ins.Block()], vals: vs, state: st.clone(), pos: ins.Pos()})
 }
